@@ -404,7 +404,10 @@ func loadView(ctx context.Context, scope *ReferenceScope, tableExpr parser.Query
 		}
 
 		if view.FileInfo != nil {
-			view.FileInfo.ViewType = ViewTypeInlineTable
+			// The result of a subquery can still point at the FileInfo of the table it was read from.
+			fileInfo := *view.FileInfo
+			fileInfo.ViewType = ViewTypeInlineTable
+			view.FileInfo = &fileInfo
 		}
 	}
 
